@@ -256,8 +256,16 @@ def rewrite_func_as_lambda(f: ast.FunctionDef) -> ast.Lambda:
             f'Simple function must use return statement - "{f.name}" does ' "not seem to."
         )
 
-    # the arguments
+    # the arguments (a lambda has no place for the type hints of a def's parameters)
     args = f.args
+    for a in (
+        args.posonlyargs
+        + args.args
+        + args.kwonlyargs
+        + [x for x in (args.vararg, args.kwarg) if x is not None]
+    ):
+        a.annotation = None
+        a.type_comment = None
     ret = cast(ast.Return, interesting_body[0])
     if ret.value is None:
         raise ValueError(f'Simple function must return a value - "{f.name}" does not.')
